@@ -54,7 +54,7 @@ Definition rewrap (orig inner' : ty) : ty :=
 Definition dup_name_err : N := 22.
 Definition struct_of (checked : bool) (fs : list sfield) : outcome ty :=
   if has_dup (map sf_name fs) then Err dup_name_err
-  else if checked && existsb (fun f => negb (exported (sf_name f))) fs then Panic 6
+  else if checked && existsb (fun f => negb (xexported (sf_name f))) fs then Panic 6
   else Ok (TStruct (pack fs) []).
 
 Section Translate.
@@ -84,7 +84,7 @@ Fixpoint xlate_layer (m : mangler) (lf : list sfield) : outcome (list sfield * l
   match lf with
   | [] => Ok ([], [])
   | f :: r =>
-      if negb (exported (sf_name f)) then
+      if negb (xexported (sf_name f)) then
         b <- xlate_layer m r ;; Ok (fst b, ME None [] :: snd b)
       else
         outs <- mangle m f ;;
@@ -222,7 +222,7 @@ Fixpoint rev_layer (m : mangler) (elems : list melem) (lv : list fvt) (offset : 
   | [] => Ok []
   | e :: r =>
       let n := length (me_out e) in
-      if negb (exported (sfo_name (me_in e))) then
+      if negb (xexported (sfo_name (me_in e))) then
         (* an unexported field skipped by TranslateType: nothing to unmangle *)
         rest <- rev_layer m r lv offset ;;
         Ok ((zero_sf, (TIface, VNil)) :: rest)
@@ -247,12 +247,12 @@ End Reverse.
    preserved Index of the first mangler's input fields, i.e. positionally *)
 Fixpoint assemble (ofs : list sfield) (lv : list fvt) {struct ofs} : outcome (list val) :=
   match ofs with
-  | [] => if existsb (fun fv => exported (sf_name (fst fv))) lv then Panic 2 else Ok []
+  | [] => if existsb (fun fv => xexported (sf_name (fst fv))) lv then Panic 2 else Ok []
   | o :: ofs' =>
       match lv with
       | [] => r <- assemble ofs' [] ;; Ok (zero (sf_ty o) :: r)
       | (f, v) :: r =>
-          x <- (if negb (exported (sf_name f)) then Ok (zero (sf_ty o))
+          x <- (if negb (xexported (sf_name f)) then Ok (zero (sf_ty o))
                 else if negb (convertible (fst v) (sf_ty o)) then Err 20
                 else (c <- convert v (sf_ty o) ;; set_into (sf_ty o) c)) ;;
           rest <- assemble ofs' r ;;
